@@ -125,6 +125,103 @@ theorem batched_assignment_queue_membership (c : Cfg) (f : Nat) (w : World) (p :
   rw [setPlain_in_batch_exact c f w p v hb hv h]
   exact ⟨fun wt hwt => uid_mem_enqueue _ _ wt hwt, fun wt hwt => mem_enqueue _ _ wt hwt⟩
 
+/-- **C04 (`param.update`, end to end).**  An unbatched `update` of ordinary parameters with valid values
+produces no log of its own: its whole log is the flush — with the flag cleared — of the world in which the
+keys have been applied one after the other, each having queued its event for, and, each of its passing
+watchers (`applyKeys`).  With `flush_first_round` and `queue_never_holds_a_watcher_twice`: each watcher
+with a qualifying event runs once, in precedence order, with one last event per parameter. -/
+theorem update_delivers_what_its_keys_queued (c : Cfg) (f : Nat) (kvs : List (Nat × Int)) (w : World)
+    (hb : w.batch = false)
+    (hval : ∀ kv ∈ kvs, c.valid kv.1 kv.2 = true ∧ kv.1 < c.nparams ∧ c.isEvent kv.1 = false)
+    (h : (run c (f + 1) (.update kvs) w).1 ≠ .oof) :
+    (run c (f + 1) (.update kvs) w).2.2 =
+      (run c f .flush { applyKeys { w with batch := true } kvs with batch := false }).2.2 := by
+  have hne : (kvs.map (·.1)).filter c.isEvent = [] := by
+    apply List.filter_eq_nil_iff.2
+    intro k hk
+    obtain ⟨kv, hkv, rfl⟩ := List.mem_map.1 hk
+    simp [(hval kv hkv).2.2]
+  obtain ⟨hlog, _, hne1⟩ := update_is_keys_then_flush c f kvs w hb h
+  simp only [hne, List.nil_append] at hlog hne1
+  have hw : ({ w with batch := true, setMode := w.setMode } : World) = { w with batch := true } := rfl
+  rw [hw] at hlog hne1
+  rw [hlog, updateKeys_in_batch_exact c kvs f { w with batch := true } rfl hval hne1]
+  simp
+
+/-- while `trigger` is in progress every watcher passes the filter -/
+theorem passing_when_triggering (w : World) (p : Nat) (v : Int) (ht : w.trigger = true) :
+    passing w p v = sortByPrec (regsFor w p) := by
+  simp [passing, passes, ht]
+
+/-- the keys of `dict(pairs)` are keys of the pairs -/
+theorem dedupKeys_key_mem : ∀ (l : List (Nat × Int)) (kv : Nat × Int), kv ∈ dedupKeys l → kv.1 ∈ l.map (·.1) := by
+  intro l
+  induction l with
+  | nil => intro kv h; simp [dedupKeys] at h
+  | cons x rest ih =>
+    obtain ⟨k, v⟩ := x
+    intro kv h
+    simp only [dedupKeys] at h
+    split at h
+    · rcases List.mem_cons.1 h with e | e
+      · subst e; simp
+      · have := ih kv (List.mem_filter.1 e).1
+        simp only [List.map_cons, List.mem_cons]; exact Or.inr this
+    · rcases List.mem_cons.1 h with e | e
+      · subst e; simp
+      · have := ih kv e
+        simp only [List.map_cons, List.mem_cons]; exact Or.inr this
+
+/-- the log and the outcome of `trigger` of known names are those of the `update` it runs with the
+trigger flag set and the queues parked -/
+theorem trigger_log (c : Cfg) (f : Nat) (ps : List Nat) (w : World)
+    (hknown : ps.any (fun p => decide (p ≥ c.nparams)) = false) :
+    (run c (f + 1) (.trigger ps) w).2.2 =
+      (run c f (.update (triggerKvs c w ps)) { w with events := [], queued := [], trigger := true }).2.2 ∧
+    (run c (f + 1) (.trigger ps) w).1 =
+      (run c f (.update (triggerKvs c w ps)) { w with events := [], queued := [], trigger := true }).1 := by
+  simp [run, hknown]
+
+/-- **C04 (`param.trigger`, end to end).**  An unbatched `trigger` of known ordinary parameters whose held
+values are valid produces exactly the log of this flush: the world in which — with the trigger flag set and
+the queues parked — every named parameter has been "assigned" its own value, which queues *every* watcher
+registered for it (`passing_when_triggering`: the changes-only filter is bypassed) with an event whose old
+and new are that value; `flush_first_round` then invokes each of them once, in precedence order, typed
+`triggered`. -/
+theorem trigger_delivers_to_every_watcher (c : Cfg) (f : Nat) (ps : List Nat) (w : World)
+    (hb : w.batch = false)
+    (hps : ∀ p ∈ ps, p < c.nparams ∧ c.isEvent p = false ∧ c.valid p (getVal w p) = true)
+    (h : (run c (f + 2) (.trigger ps) w).1 ≠ .oof) :
+    (run c (f + 2) (.trigger ps) w).2.2 =
+      (run c f .flush { applyKeys { w with events := [], queued := [], trigger := true, batch := true }
+                          (triggerKvs c w ps) with batch := false }).2.2 := by
+  have hknown : ps.any (fun p => decide (p ≥ c.nparams)) = false := by
+    apply List.any_eq_false.2
+    intro p hp
+    have := (hps p hp).1
+    simp; omega
+  have hkv : ∀ kv ∈ triggerKvs c w ps,
+      c.valid kv.1 kv.2 = true ∧ kv.1 < c.nparams ∧ c.isEvent kv.1 = false := by
+    intro kv hkv
+    have hmem := dedupKeys_key_mem _ kv hkv
+    simp only [List.map_map, List.mem_map, Function.comp] at hmem
+    obtain ⟨p, hp, hpk⟩ := hmem
+    have hval := dedupKeys_values (fun q => if c.isEvent q then 1 else getVal w q)
+      (ps.map (fun p => (p, if c.isEvent p then 1 else getVal w p))) (by
+        intro kv' hkv'
+        obtain ⟨q, _, rfl⟩ := List.mem_map.1 hkv'
+        rfl) kv hkv
+    have hp' : kv.1 ∈ ps := by simpa using hpk ▸ hp
+    obtain ⟨h1, h2, h3⟩ := hps kv.1 hp'
+    have hval' : kv.2 = getVal w kv.1 := by simpa [h2] using hval
+    rw [hval']
+    exact ⟨h3, h1, h2⟩
+  obtain ⟨hlog, hres⟩ := trigger_log c (f + 1) ps w hknown
+  rw [hlog]
+  rw [hres] at h
+  exact update_delivers_what_its_keys_queued c f (triggerKvs c w ps)
+    { w with events := [], queued := [], trigger := true } hb hkv h
+
 /-- **C04 (the outermost exit flushes what the body queued).**  `with batch_call_watchers(obj): body`
 with no batch open around it is: the body with the flag set, then — whether the body returned or raised —
 the flush, with the flag cleared, of the queues the body left. -/
@@ -441,6 +538,13 @@ def c04World : World :=
 example : (match (run c04Cfg 40 (.stmt (.batch [.set 0 1, .set 0 2, .set 1 0])) c04World).2.2 with
     | [.stmt "batch" _ _ _ _ _ _ ch _] => (callSigs ch).map (fun s => (s.1, s.2.2))
     | _ => []) = [(1, true), (0, true)] := by decide
+-- trigger('b') from the idle world: both watchers of b are invoked by the flush, precedence order, typed triggered
+example : (run c04Cfg 42 (.trigger [1]) c04World).1 = .ok ∧
+    (callSigs (run c04Cfg 42 (.trigger [1]) c04World).2.2).map (fun s => (s.1, s.2.1.map (·.type), s.2.2)) =
+      [(1, [.triggered], true), (0, [.triggered], true)] := by decide
+-- update(a=1, b=0): watcher 1 (b, not changes-only) and watcher 0 (a changed) are delivered by the flush
+example : (callSigs (run c04Cfg 42 (.update [(0, 1), (1, 0)]) c04World).2.2).map (fun s => (s.1, s.2.2)) =
+    [(1, true), (0, true)] := by decide
 example : passing { c04World with batch := true } 1 5 = [mkW 1 [1] false false 0 9, mkW 0 [0, 1] true false 1 9] := by decide
 example : (run c04Cfg 40 (.stmt (.batch [.set 0 1, .set 0 2, .set 1 0])) c04World).2.1.ncalls = 2 := by decide
 example : (run c04Cfg 40 (.stmts [.set 0 1, .set 0 2]) { c04World with batch := true }).2.1.events =
